@@ -1763,14 +1763,14 @@ func (c *Ctx) c6Case(s *c6Scene, glb bool, tag string) {
 	if glb && !big {
 		// the JSON text itself is not modelled (and not even deterministic: extensionsUsed comes out of a Go map):
 		// the file's own JSON chunk, stripped of its padding, is handed over; the model frames it with ITS buffer
-		c.Emit("c06.glb", "h"+hex.EncodeToString(bytes.TrimRight(o.frame.json, " "))+" "+st, bytesTok(o.file))
+		c.Emit("c06.glb", "h"+hex.EncodeToString(c6JSONText(o.frame.json))+" "+st, bytesTok(o.file))
 	}
 	if glb && len(o.file) <= 20000 {
 		// round 2: the Lean reader glbParse recovers text + blank padding and buffer + zero padding (glb_parse_write)
 		c.Emit("c06.holds.glbparse", "h"+hex.EncodeToString(o.file)+" h"+hex.EncodeToString(c6JSONText(o.frame.json))+" h"+hex.EncodeToString(o.bin), "true")
 	}
 	if glb {
-		c.Emit("c06.holds.frame", o.frame.tokens()+" "+strconv.Itoa(len(bytes.TrimRight(o.frame.json, " ")))+" "+strconv.Itoa(len(o.bin))+
+		c.Emit("c06.holds.frame", o.frame.tokens()+" "+strconv.Itoa(len(c6JSONText(o.frame.json)))+" "+strconv.Itoa(len(o.bin))+
 			" "+b2s(isPad(o.frame.json, ' '))+" "+b2s(isPadBin(o.frame.bin, len(o.bin))), "true")
 	}
 	if tag == "witness" {
@@ -1813,8 +1813,18 @@ func b2s(b bool) string { return B(b) }
 
 // JSON chunk: everything after the last non-blank byte is the pad byte
 func isPad(chunk []byte, pad byte) bool {
-	t := bytes.TrimRight(chunk, string(pad))
-	return len(chunk)-len(t) < 4
+	// round 2: what follows the JSON document's closing brace must be fewer than four bytes, all equal to pad
+	// (trimming pad bytes first accepted a chunk padded with anything else)
+	t := c6JSONText(chunk)
+	if len(chunk)-len(t) >= 4 {
+		return false
+	}
+	for _, b := range chunk[len(t):] {
+		if b != pad {
+			return false
+		}
+	}
+	return true
 }
 
 func isPadBin(chunk []byte, n int) bool {
